@@ -643,46 +643,30 @@ theorem step_E (f : Nat) (hE : PE f) (hL : PL f) (hS : PS f) (hA : PA f) (hO : P
     · cases h5
     · split at h5
       · cases h5
-      · rename_i _ hb
+      · rename_i hci hb
         have hb' : boundOk ts = true ∧ boundOk te = true ∧ boundOk tp = true := by
           cases h1 : boundOk ts <;> cases h2 : boundOk te <;> cases h3 : boundOk tp <;> simp_all
         obtain ⟨i1, e1⟩ := optIdx_okG vs ts r1 hb'.1
         obtain ⟨i2, e2⟩ := optIdx_okG ve te r2 hb'.2.1
         obtain ⟨i3, e3⟩ := optIdx_okG vp tp r3 hb'.2.2
-        have cx := vt_contents hx wta
         cases ta with
         | arr e =>
           simp only [] at h5
           rw [(okW_ok h5).1]
-          obtain ⟨t1, xs, rfl⟩ := arr_of_hasTy cx
-          have hsv : sliceVal (.arr t1 xs) vs ve vp = .ok (Val.mkArray (Seq.slice xs i1 i2 i3)) := by
-            simp [sliceVal, e1, e2, e3, bind, Except.bind]
-          rw [hsv]
-          apply outP_liftE _ _ _ _ _ _ hst
-          simp only []
-          obtain ⟨tx, gx⟩ := hx
-          simp only [asType, C01.sub_arr] at tx
-          cases gx with
-          | arr _ _ w1 hs1 hg1 =>
-          have hsel : ∀ z ∈ Seq.slice xs i1 i2 i3, z ∈ xs := slice_mem xs i1 i2 i3
-          have gsel : ∀ z ∈ Seq.slice xs i1 i2 i3, Good S z := fun z hz => hg1 z (hsel z hz)
-          have we : wf e = true := by have := (okW_ok h5).2; simpa [wf] using this
-          refine ⟨?_, good_mkArray _ gsel⟩
-          simp only [Val.mkArray, asType, C01.sub_arr]
-          have hw := wfL_asTypeLG _ gsel
-          refine sub_trans _ t1 e (wf_concatL _ hw) w1 we (concatL_least _ t1 hw ?_) tx
-          intro t ht'
-          obtain ⟨z, hz, rfl⟩ := mem_asTypeL _ t ht'
-          exact hs1 z (hsel z hz)
+          exact slice_value lp ret x _ vs ve vp i1 i2 i3 σ4 hst e1 e2 e3 hx wta (Or.inl ⟨e, rfl⟩)
         | str =>
           simp only [] at h5
           cases h5
-          obtain ⟨str, rfl⟩ : ∃ str, x = .str str := by cases x <;> simp [hasTy] at cx; exact ⟨_, rfl⟩
-          have hsv : sliceVal (.str str) vs ve vp = .ok (.str (String.ofList (Seq.slice str.toList i1 i2 i3))) := by
-            simp [sliceVal, e1, e2, e3, bind, Except.bind]
-          rw [hsv]
-          apply outP_liftE _ _ _ _ _ _ hst
-          exact ⟨by simp [asType, sub, eqv], Good.str _⟩
+          exact slice_value lp ret x _ vs ve vp i1 i2 i3 σ4 hst e1 e2 e3 hx wta (Or.inr rfl)
+        | multi ms =>
+          simp only [] at h5
+          rw [(okW_ok h5).1]
+          obtain ⟨m, hm, hxm⟩ := vt_member hx
+          have wm := wfL_memU (wfL_of_multi wta) hm
+          have hshape := canBeIndexed_member ms m hm wta (by simpa using hci)
+          have hsm := member_sub_multi ms m hm wta
+          exact outP_mono _ _ _ _ _ _ (slice_value lp ret x m vs ve vp i1 i2 i3 σ4 hst e1 e2 e3 hxm wm hshape)
+            (fun _ v _ hv => vt_trans hv wm wta hsm)
         | _ => simp only [] at h5; cases h5
   | matchE e arms =>
     simp only [tyS] at ht
